@@ -1,0 +1,11 @@
+//go:build !verif
+
+package leanhelix
+
+import "context"
+
+type verifWorkerState struct{}
+
+func (lh *WorkerLoop) verifWorkerCtx(ctx context.Context) context.Context { return ctx }
+
+func (lh *WorkerLoop) verifAtSelect(ctx context.Context) {}
